@@ -52,6 +52,11 @@ def data_labels4(rng, n=None, d=2):
     return X, y
 
 
+def _birch(k=2):
+    from sklearn.cluster import Birch
+    return Birch(n_clusters=k)
+
+
 def _km(k=2):
     from sklearn.cluster import KMeans
     return KMeans(n_clusters=k, n_init=2, random_state=0)
@@ -241,7 +246,8 @@ def entries():
                    data_reg, ["predict", "predict_all", "predict_sorted"], seed="global", bad=[("short y", _bad_short_y)]))
     E.append(Entry("ClassifierAfterKMeans",
                    lambda k: M.ClassifierAfterKMeans(estimator=[_logreg(), _dtc(2)][k], clus=_km([2, 3][k])),
-                   [("c_n_clusters", v(2, 3)), ("c_n_init", v(1, 3)), ("e_random_state", v(0, 1))],
+                   [("c_n_clusters", v(2, 3)), ("c_n_init", v(1, 3)), ("e_random_state", v(0, 1)),
+                    ("clus", [lambda: _km(2), lambda: _birch(2)])],     # (then a clusterer whose fit takes no sample_weight)
                    data_clf, ["predict", "predict_proba"], seed="none", bad=[("short y", _bad_short_y)]))
     E.append(Entry("ClassifierAfterKMeans[L1]",
                    lambda k: M.ClassifierAfterKMeans(estimator=_dtc(2), clus=M.KMeansL1L2(n_clusters=[2, 3][k], norm="L1", n_init=2, random_state=0)),
